@@ -302,6 +302,7 @@ RULES = [
     ("C14-R4", "format_filesize unit / flag tables", r4),
     ("C14-R5", "format_filesize unit rewriting (kB -> KB, short units) on every humansize unit", r5),
     ("C02-R1", "`size OP literal` is the numeric comparison [shared with C02]", lambda ctx: __import__("c02").r1(ctx)),
+    ("C14-R6", "FORMAT_SIZE hands its specifier to format_filesize unchanged", lambda ctx: __import__("extra2").format_size_arguments_unchanged(ctx)),
 ]
 
 EXPLANATION = (
